@@ -808,6 +808,8 @@ class _ServerKbdIntAuth(ServerAuth):
 
     _handler_names = get_symbol_names(globals(), 'MSG_USERAUTH_INFO_')
 
+    _challenge_pending = False
+
     @classmethod
     def supported(cls, conn: 'SSHServerConnection') -> bool:
         """Return whether keyboard interactive authentication is supported"""
@@ -847,6 +849,7 @@ class _ServerKbdIntAuth(ServerAuth):
             self.send_packet(MSG_USERAUTH_INFO_REQUEST, String(name),
                              String(instruction), String(lang),
                              UInt32(num_prompts), *prompts_bytes)
+            self._challenge_pending = True
         elif challenge:
             await self.send_success()
         else:
@@ -862,6 +865,12 @@ class _ServerKbdIntAuth(ServerAuth):
     def _process_info_response(self, _pkttype: int, _pktid: int,
                                packet: SSHPacket) -> None:
         """Process a keyboard interactive authentication response"""
+
+        if not self._challenge_pending:
+            raise ProtocolError('Unexpected keyboard interactive '
+                                'info response')
+
+        self._challenge_pending = False
 
         num_responses = packet.get_uint32()
         responses = []
